@@ -7,7 +7,7 @@
      E i lock ks rv ce loie f early locked absent lwc res expired   (ks/locked/absent: comma lists of hex ints, "-" = empty)
      E i commit mode(2pc|async|1pc) prewritten sync res(ok|pfail|cfail) unnecessary
      D          drain all pending tasks
-   output: R id i flags cnt agg cur prev rk valid ntasks store x(X = the expiry input mattered) primary      and after D:  F id store *)
+   output: R id i flags cnt agg cur prev rk valid ntasks store x(X = the expiry input mattered) primary keepalive(U|C|bound key)      and after D:  F id store *)
 let keys_of_str s = if s = "-" || s = "" then [] else List.map n_of_hex (String.split_on_char ',' s)
 let str_of_keys l = if l = [] then "-" else String.concat "," (List.sort compare (List.map hex_of_n l))
 let b s = s = "1"
@@ -17,10 +17,11 @@ let fail_of = function
 let out ?(x = "-") id i (s : st) rk =
   let (a, c, p) = match s.agg with
     | Some a -> ("1", List.map fst a.cur, List.map fst a.prev) | None -> ("0", [], []) in
-  Printf.printf "R\t%s\t%s\t%s\t%d\t%s\t%s\t%s\t%s\t%s\t%d\t%s\t%s\t%s\n" id i (str_of_keys s.flags) (int_of_z s.cnt) a
+  Printf.printf "R\t%s\t%s\t%s\t%d\t%s\t%s\t%s\t%s\t%s\t%d\t%s\t%s\t%s\t%s\n" id i (str_of_keys s.flags) (int_of_z s.cnt) a
     (str_of_keys c) (str_of_keys p) rk (if s.valid then "1" else "0") (List.length s.tasks)
     (str_of_keys (List.map fst s.store)) x
     (match s.primary with Some p -> hex_of_n p | None -> "-")
+    (match s.ka with KUninit -> "U" | KClosed -> "C" | KRunning k -> hex_of_n k)
 let () =
   let cur = ref (init true) and id = ref "" in
   read_lines (fun line ->
